@@ -414,6 +414,14 @@ def gen_tables():
     comps = [(c.name, c.value) for c in fl.activation.Threshold.Comparator]
     out.append("def comparators : List (String × String) := ["
                + ", ".join(f"({lean_str(n)}, {lean_str(v)})" for n, v in comps) + "]")
+    # what each comparator's operator returns on the probes (0,1), (1,1), (1,0), (nan,1)  [C08: Threshold]
+    probes = [(0.0, 1.0), (1.0, 1.0), (1.0, 0.0), (float("nan"), 1.0)]
+    truth = [(c.value, [bool(c.operator(np.float64(a), np.float64(b))) for a, b in probes])
+             for c in fl.activation.Threshold.Comparator]
+    out.append("/-- (symbol, operator(0,1), operator(1,1), operator(1,0), operator(nan,1)) of `Threshold.Comparator` -/")
+    out.append("def comparatorTruth : List (String × List Bool) := ["
+               + ", ".join(f"({lean_str(v)}, [" + ", ".join("true" if b else "false" for b in bs) + "])" for v, bs in truth) + "]")
+    STATUS["tables"]["comparator_truth"] = {v: bs for v, bs in truth}
     # rule keywords
     R = fl.Rule
     kw = [("IF", R.IF), ("IS", R.IS), ("THEN", R.THEN), ("AND", R.AND), ("OR", R.OR), ("WITH", R.WITH)]
